@@ -5,7 +5,7 @@
    executions through one ObjectPatcher on a cluster that serves kinds in several API
    groups (C13_GModel / C13_GSpec).  Evaluated by vm_compute in the generated cases files. *)
 From Coq Require Import String.
-From Verif Require Import Common Json C13_Model C13_Spec C13_GModel C13_GSpec.
+From Verif Require Import Common Json C13_Model C13_Spec C13_GModel C13_GSpec C13_CModel C13_CSpec.
 
 Record run_obs := mkRun {
   ro_parse_ok : bool;
@@ -165,14 +165,49 @@ Definition spec_ok_session (c : session_case) : bool :=
             (map (fun o => (status_eqb (or_status o) OFail, or_cluster o, or_calls o)) os)
      end.
 
-(* ---------- the two case classes ---------- *)
+(* ---------- another writer on the cluster (C13_CModel / C13_CSpec) ---------- *)
 
-Inductive case := KRun (c : run_case) | KSession (c : session_case).
+(* one execution; [cc_queues]: per document the writes the other writer has ready for the
+   document's object; per rendering what the execution showed and, per document, how many
+   of those writes happened *)
+Record conc_case := mkConc {
+  cc_initial    : cluster;
+  cc_docs       : list doc;
+  cc_queues     : list (list write);
+  cc_json       : run_obs;
+  cc_json_used  : list nat;
+  cc_yaml       : run_obs;
+  cc_yaml_used  : list nat;
+  cc_same_ops   : bool;
+  cc_same_typed : bool
+}.
+
+Definition model_conc (c : conc_case) : run_obs * list nat :=
+  match chandle_run (cc_initial c) (cc_docs c) (cc_queues c) with
+  | (r, ms) => (obs_of_outcome r, ms)
+  end.
+
+Definition agrees_conc (c : conc_case) : bool :=
+  run_eqb (fst (model_conc c)) (cc_json c) && list_eqb Nat.eqb (snd (model_conc c)) (cc_json_used c)
+  && run_eqb (fst (model_conc c)) (cc_yaml c) && list_eqb Nat.eqb (snd (model_conc c)) (cc_yaml_used c)
+  && cc_same_ops c && cc_same_typed c.
+
+Definition spec_ok_conc (c : conc_case) : bool :=
+  negb (ro_crash (cc_json c)) && negb (ro_crash (cc_yaml c))
+  && P_conc attempts project (cc_initial c) (cc_docs c) (cc_queues c) (outcome_of (cc_json c)) (cc_json_used c)
+  && P_conc attempts project (cc_initial c) (cc_docs c) (cc_queues c) (outcome_of (cc_yaml c)) (cc_yaml_used c)
+  && cc_same_ops c.
+
+(* ---------- the three case classes ---------- *)
+
+Inductive case := KRun (c : run_case) | KSession (c : session_case) | KConc (c : conc_case).
 
 Definition model_obs (c : case) : list run_obs :=
-  match c with KRun r => [model_obs_run r] | KSession s => model_obs_session s end.
-Definition agrees (c : case) : bool := match c with KRun r => agrees_run r | KSession s => agrees_session s end.
-Definition spec_ok (c : case) : bool := match c with KRun r => spec_ok_run r | KSession s => spec_ok_session s end.
+  match c with KRun r => [model_obs_run r] | KSession s => model_obs_session s | KConc k => [fst (model_conc k)] end.
+Definition agrees (c : case) : bool :=
+  match c with KRun r => agrees_run r | KSession s => agrees_session s | KConc k => agrees_conc k end.
+Definition spec_ok (c : case) : bool :=
+  match c with KRun r => spec_ok_run r | KSession s => spec_ok_session s | KConc k => spec_ok_conc k end.
 
 Definition mismatches (cs : list case) : list N := indices_where (fun c => negb (agrees c)) cs.
 Definition spec_violations (cs : list case) : list N := indices_where (fun c => negb (spec_ok c)) cs.
